@@ -41,5 +41,7 @@ def obligations(tier):
            timeout=3600, shards=32, tiers=('thorough',)),
         Ob('W.native', 'E', 'real adapter over the source-built cutter: deterministic, lossless, bounded, independent of the segmentation outside the tail zone',
            '6 (min,max) x 12x12 split points x 6 lengths x 3 seeds = 15552', [PYA, CPP + 'next_cut'], module=W, func='w_native', timeout=1800, shards=16),
+        Ob('W.big', 'E', 'streams of 8..17 MiB as one block vs blocks of 1 MiB / 4 MiB / 3 MiB+7 / 16 MiB over the source-built cutter: lossless, bounded, chunks outside the tail zone identical for every blocking',
+           '3 (min,max) up to (1 MiB, 5 MiB) x 3 lengths x 4 blockings x 2 seeds = 72', [PYA, CPP + 'next_cut'], module=W, func='w_big', timeout=900, shards=2),
         Ob('W.key', 'E', 'params repeated/truncated to 16 bytes, default 16 x 0xFF', 'lengths 0..40', [PYA], module=W, func='key_prologue', timeout=300),
     ]
